@@ -100,7 +100,7 @@ PROPS["C20"] = {
     "required_theorems": ["request_shape", "endpoints_eq_documented", "one_get_after_wait", "status_total", "status_typed", "notFound_iff",
                           "single_element_guard", "multi_fetch_ids_joined"],
     "technique": "Lean 4 theorems over the endpoint table and status chain regenerated from osmapi/*.go by a fact extractor (table = pinned API v0.6 table; status classification total and typed); URL builder model tied by a differential line protocol through a fake transport",
-    "level_text": "Machine-checked proof that the endpoint table extracted from the source (URL recipe, option kind, result selector, length guard for all 26 exported calls) equals the pinned documented API v0.6 table, that getFromAPI's extracted status chain maps every non-200 status to an error with 404/403/410/414 distinct and NotFound iff 404, that there is exactly one client.Do outside any loop after the limiter wait, that the request is a GET of the URL with the caller's context, the limiter is consulted only when set and the body is decoded only after all status tests (request_shape), that single-element calls carry the len != 1 guard, and that the multi-fetch id list splits back into the requested ids. I/O behaviour (one GET, limiter order, parameters, returned elements) is compared between the model and the real calls behind a fake http.RoundTripper for every endpoint x status x body x option set.",
+    "level_text": "Machine-checked proof that the endpoint table extracted from the source (URL recipe, option kind, result selector, length guard for all 26 exported calls) equals the pinned documented API v0.6 table, that getFromAPI's extracted status chain maps every non-200 status to an error with 404/403/410/414 distinct and NotFound iff 404, that there is exactly one client.Do outside any loop after the limiter wait, that the request is a GET of the URL with the caller's context, the limiter is consulted only when set and the body is decoded only after all status tests (request_shape), that single-element calls carry the len != 1 guard, and that the multi-fetch id list splits back into the requested ids. Known finding (open): Map and Notes format the bounding box with %f, six decimals, where OSM coordinates have seven - the requested box is not the given one (bbox-six-decimals; not repairable without editing the package's tests, which pin the six-decimal text); the direct oracle reads every bbox value of the request back and compares it with the argument. I/O behaviour (one GET, limiter order, parameters, returned elements) is compared between the model and the real calls behind a fake http.RoundTripper for every endpoint x status x body x option set.",
     "level_note": "Trusted: Lean kernel; the fact extractor (go/ast pattern matching; cross-checked by the differential stream); fmt %f / time layout / url.QueryEscape / net/http / encoding/xml decoding modelled not verified; the pinned API table was written from the API v0.6 wiki page.",
     "design_ref": "DESIGN.md §5 C20",
     "trusted_base": ["extractor patterns for `url := fmt.Sprintf(...)`, `ds.getFromAPI`, `if resp.StatusCode == X`", "pinned tables in Spec/OsmApiDocumented.lean and harness/c20.go"],
